@@ -105,6 +105,11 @@ func (p *LeakyBucketPacer) Write(header *rtp.Header, payload []byte, attributes 
 		return 0, errLeakyBucketPacerPoolCastFailed
 	}
 
+	if len(payload) > len(*buf) {
+		// larger than the pooled buffers: use a dedicated buffer instead of truncating the packet
+		b := make([]byte, len(payload))
+		buf = &b
+	}
 	copy(*buf, payload)
 	hdr := header.Clone()
 
